@@ -465,7 +465,7 @@ class Judge:
             def start(t, how):
                 nonlocal hold
                 if hold is None:
-                    hold = [t, None, name, how]
+                    hold = [t, None, name, how, False]
                     holds.append(hold)
 
             def stop(t):
@@ -527,6 +527,8 @@ class Judge:
                                 self.classes.add('token-grant-ambiguous')
                         if mask & EV_RECLAIMED:
                             self.classes.add('token-reclaimed')
+                            if hold is not None:
+                                hold[4] = True
                     elif k == 'gone':
                         stop(e[1])
                     elif k == 'conn':
@@ -585,6 +587,8 @@ class Judge:
                                     released_t = t
                         elif ty == TY['RECLAIM_REQ']:
                             self.classes.add('token-reclaimed')
+                            if hold is not None:
+                                hold[4] = True
                     elif k == 'gone':
                         stop(e[1])
             if asked_any:
@@ -597,8 +601,11 @@ class Judge:
                     continue
                 a_end = a[1] if a[1] is not None else float('inf')
                 if b[0] < a_end:
-                    self.v(P + ':token-two-holders', '%s holds the token from %.6f (%s) until %s; %s was granted it at %.6f (%s)'
-                           % (a[2], a[0], a[3], 'the end' if a[1] is None else '%.6f' % a[1], b[2], b[0], b[3]))
+                    # the holder had been asked to give the token back and had not answered yet: shape of finding F14
+                    shape = ':holder-had-reclaim-pending' if a[4] else ''
+                    self.v(P + ':token-two-holders' + shape, '%s holds the token from %.6f (%s) until %s%s; %s was granted it at %.6f (%s)'
+                           % (a[2], a[0], a[3], 'the end' if a[1] is None else '%.6f' % a[1],
+                              ' and had not answered a reclaim request' if a[4] else '', b[2], b[0], b[3]))
         self.token_askers = askers
         self.token_holds = len(holds)
         if askers >= 2:
